@@ -19,7 +19,21 @@ Strings are `List Char`, one `Char` per byte.
 * the allow loop of cors.go in its order (`*` with the unsafe-credentials flag, `*`, literal
   equality, `matchSubdomain`), then — only if nothing matched, the origin is at most 261 bytes
   long and contains `://` — the compiled patterns; 401 / 204 for disallowed origins; the
-  preflight branch.  `AllowOriginFunc` is not modelled (the property is about AllowOrigins).
+  preflight branch.  This core (`serve`) is the middleware with `AllowOriginFunc` unset and the
+  default Skipper, projected on status / handler / ACAO / ACAC / Vary.
+* round 4: an entry that is not valid UTF-8 does not compile (`regexp.Compile` fails, the entry is
+  silently dropped from the pattern list but still takes part in the literal and sub-domain
+  comparisons of the allow loop).  `validUtf8` implements `utf8.ValidString` on the byte list and
+  is validated by the run on entries assembled from valid, truncated, overlong, surrogate and
+  out-of-range sequences.  (QuoteMeta escapes every metacharacter, so invalid UTF-8 is the only way
+  the compilation of an entry fails.)
+* round 4: `serveFull` is the complete closure of `CORSWithConfig`: Skipper first; the router's
+  `Allow` value from the context on OPTIONS (header `Allow`, and `Access-Control-Allow-Methods`
+  when `AllowMethods` was left empty); `AllowOriginFunc` (a parameter: allow / deny / error) which
+  replaces the allow-list; `Access-Control-Expose-Headers` on simple requests;
+  `Access-Control-Allow-Methods` / `-Allow-Headers` (configured list or echo of the request's
+  `Access-Control-Request-Headers`) / `-Max-Age` on preflights; `CORS()` = `CORSWithConfig(DefaultCORSConfig)`,
+  whose non-empty AllowMethods count as custom.  `serveFull_core` ties it to `serve`.
 -/
 namespace C11
 
@@ -126,8 +140,36 @@ def allowLoop (cfg : Cfg) (origin : Str) : List Str → Str
     else if matchSubdomain origin o then origin
     else allowLoop cfg origin rest
 
-/-- the entries a regexp was compiled for (`*` is skipped; ASCII entries always compile) -/
-def patterns (cfg : Cfg) : List Str := (effOrigins cfg).filter (· ≠ star)
+/-! ### which entries compile: `utf8.ValidString` -/
+
+/-- the decoder of `utf8.ValidString` as a state machine over the bytes: `need` continuation bytes
+    are still owed, the next one must lie in `[lo, hi]` (the first continuation byte of a sequence
+    has a narrowed range after E0 / ED / F0 / F4: no overlong forms, no surrogates, nothing above
+    U+10FFFF); every later one in `[80, BF]` -/
+def utf8Go : Nat → Nat → Nat → Str → Bool
+  | need, _, _, [] => need == 0
+  | 0, _, _, a :: r =>
+    let n := a.toNat
+    if n < 0x80 then utf8Go 0 0 0 r
+    else if 0xC2 ≤ n ∧ n ≤ 0xDF then utf8Go 1 0x80 0xBF r
+    else if n = 0xE0 then utf8Go 2 0xA0 0xBF r
+    else if n = 0xED then utf8Go 2 0x80 0x9F r
+    else if 0xE1 ≤ n ∧ n ≤ 0xEF then utf8Go 2 0x80 0xBF r
+    else if n = 0xF0 then utf8Go 3 0x90 0xBF r
+    else if n = 0xF4 then utf8Go 3 0x80 0x8F r
+    else if 0xF1 ≤ n ∧ n ≤ 0xF3 then utf8Go 3 0x80 0xBF r
+    else false
+  | need + 1, lo, hi, a :: r =>
+    if lo ≤ a.toNat ∧ a.toNat ≤ hi then utf8Go need 0x80 0xBF r else false
+
+/-- `utf8.ValidString` on a byte list -/
+def validUtf8 (s : Str) : Bool := utf8Go 0 0 0 s
+
+/-- `regexp.Compile("^" + quoted-and-translated entry + "$")` succeeds -/
+def compiles (p : Str) : Bool := validUtf8 p
+
+/-- the entries a regexp was compiled for (`*` is skipped; an entry that does not compile is ignored) -/
+def patterns (cfg : Cfg) : List Str := (effOrigins cfg).filter (fun p => decide (p ≠ star) && compiles p)
 
 /-- value of `allowOrigin` after the allow loop and the pattern loop (`[]` = not allowed) -/
 def allowOrigin (cfg : Cfg) (origin : Str) : Str :=
@@ -155,6 +197,96 @@ def serve (cfg : Cfg) (req : Req) : Obs :=
     else if !req.preflight then ⟨200, true, some a, cfg.creds, [varyOrigin]⟩
     else ⟨204, false, some a, cfg.creds, varyOrigin :: varyPreflight⟩
 
+/-! ## the complete middleware -/
+
+/-- what `AllowOriginFunc` answers -/
+inductive FRes where
+  | allow
+  | deny
+  | err (status : Nat)      -- the error it returned, as the status echo's error handler gives it
+deriving DecidableEq, Repr, Inhabited
+
+structure Full where
+  core : Cfg
+  func : Option (Str → FRes)   -- AllowOriginFunc
+  methods : List Str           -- AllowMethods as configured
+  headers : List Str           -- AllowHeaders
+  expose : List Str            -- ExposeHeaders
+  maxAge : Int                 -- MaxAge
+
+structure FReq where
+  core : Req
+  skip : Bool                  -- what the configured Skipper answers for this request
+  routerAllow : Str            -- `c.Get(echo.ContextKeyHeaderAllow)` when it is a string, "" otherwise
+  reqHeaders : Str             -- first Access-Control-Request-Headers value, "" when absent
+
+structure FObs where
+  core : Obs
+  allow : Option Str           -- Allow
+  acam : Option Str            -- Access-Control-Allow-Methods
+  acah : Option Str            -- Access-Control-Allow-Headers
+  aceh : Option Str            -- Access-Control-Expose-Headers
+  maxAge : Option Str          -- Access-Control-Max-Age
+deriving DecidableEq, Repr, Inhabited
+
+/-- `strings.Join(l, ",")` -/
+def joinComma : List Str → Str
+  | [] => []
+  | [a] => a
+  | a :: b :: r => a ++ ',' :: joinComma (b :: r)
+
+def defaultMethods : List Str :=
+  ["GET".toList, "HEAD".toList, "PUT".toList, "PATCH".toList, "POST".toList, "DELETE".toList]
+
+/-- `DefaultCORSConfig` as `CORS()` passes it on: its AllowMethods are set, hence "custom" -/
+def defaultFull : Full := ⟨⟨[star], false, false⟩, none, defaultMethods, [], [], 0⟩
+
+/-- `maxAge := "0"; if config.MaxAge > 0 { maxAge = strconv.Itoa(config.MaxAge) }` -/
+def maxAgeStr (n : Int) : Str := if n > 0 then (toString n.toNat).toList else ['0']
+
+/-- the origin decision: `AllowOriginFunc` when set (AllowOrigins is then ignored), else the allow-list;
+    `.error st` = the function's error is returned by the middleware -/
+def decideOrigin (fc : Full) (origin : Str) : Except Nat Str :=
+  match fc.func with
+  | some f =>
+    match f origin with
+    | .err st => .error st
+    | .allow => .ok origin
+    | .deny => .ok []
+  | none => .ok (allowOrigin fc.core origin)
+
+def noHeaders (o : Obs) (allow : Option Str) : FObs := ⟨o, allow, none, none, none, none⟩
+
+/-- one request through the complete middleware in front of a handler that answers 200 -/
+def serveFull (fc : Full) (fr : FReq) : FObs :=
+  if fr.skip then noHeaders ⟨200, true, none, false, []⟩ none
+  else
+    let pre := fr.core.preflight
+    let rAllow : Str := if pre then fr.routerAllow else []        -- routerAllowMethods
+    let allowHdr : Option Str := if rAllow = [] then none else some rAllow
+    let origin := fr.core.origins.headD []
+    if origin = [] then
+      if !pre then noHeaders ⟨200, true, none, false, [varyOrigin]⟩ allowHdr
+      else noHeaders ⟨204, false, none, false, [varyOrigin]⟩ allowHdr
+    else
+      match decideOrigin fc origin with
+      | .error st => noHeaders ⟨st, false, none, false, [varyOrigin]⟩ allowHdr
+      | .ok a =>
+        if a = [] then
+          if !pre then noHeaders ⟨401, false, none, false, [varyOrigin]⟩ allowHdr
+          else noHeaders ⟨204, false, none, false, [varyOrigin]⟩ allowHdr
+        else if !pre then
+          ⟨⟨200, true, some a, fc.core.creds, [varyOrigin]⟩, allowHdr, none, none,
+            (if joinComma fc.expose = [] then none else some (joinComma fc.expose)), none⟩
+        else
+          ⟨⟨204, false, some a, fc.core.creds, varyOrigin :: varyPreflight⟩, allowHdr,
+            some (if fc.methods = [] ∧ rAllow ≠ [] then rAllow
+                  else joinComma (if fc.methods = [] then defaultMethods else fc.methods)),
+            (if joinComma fc.headers ≠ [] then some (joinComma fc.headers)
+             else if fr.reqHeaders ≠ [] then some fr.reqHeaders else none),
+            none,
+            (if fc.maxAge = 0 then none else some (maxAgeStr fc.maxAge))⟩
+
 /-! ## wire -/
 open Wire
 
@@ -162,17 +294,40 @@ def encObs (o : Obs) : String :=
   render ([toString o.status, encBool o.ran] ++ encOpt (fun s => [encStr s]) o.acao ++
     [encBool o.acac] ++ encList (fun s => [encStr s]) o.vary)
 
-/-- line: `creds unsafe n allow* preflight m originValue*`
-    →  `status ran (0 | 1 acao) acac k vary*` -/
+def encFObs (o : FObs) : String :=
+  render ([encObs o.core] ++ encOpt (fun s => [encStr s]) o.allow ++ encOpt (fun s => [encStr s]) o.acam ++
+    encOpt (fun s => [encStr s]) o.acah ++ encOpt (fun s => [encStr s]) o.aceh ++
+    encOpt (fun s => [encStr s]) o.maxAge)
+
+/-- `func` token: 0 = AllowOriginFunc not set, 1 = it allows this origin, 2 = it refuses it,
+    n ≥ 100 = it returns an error that echo's error handler answers with status n -/
+def pFunc : P (Option (Str → FRes)) := do
+  let n ← nat
+  pure (if n = 0 then none else some (fun _ => if n = 1 then .allow else if n = 2 then .deny else .err n))
+
+/-- line: `ctor skip creds unsafe n allow* func n methods* n headers* n expose* maxAge
+           preflight m originValue* routerAllow reqHeaders`
+    (`ctor` 1 = `CORS()`: the configuration tokens are ignored, the default configuration is used)
+    →  `status ran (0 | 1 acao) acac k vary* (0|1 allow) (0|1 acam) (0|1 acah) (0|1 aceh) (0|1 maxage)` -/
 def runLine (line : String) : String :=
   match parseLine (do
+      let ctor ← nat
+      let skip ← bool
       let creds ← bool
       let uw ← bool
       let allow ← list str
+      let func ← pFunc
+      let methods ← list str
+      let headers ← list str
+      let expose ← list str
+      let maxAge ← int
       let pre ← bool
       let ov ← list str
-      pure (Cfg.mk allow creds uw, Req.mk pre ov)) line with
+      let rAllow ← str
+      let rh ← str
+      let fc : Full := if ctor = 1 then defaultFull else ⟨⟨allow, creds, uw⟩, func, methods, headers, expose, maxAge⟩
+      pure (fc, FReq.mk ⟨pre, ov⟩ skip rAllow rh)) line with
   | none => "bad-op"
-  | some (cfg, req) => encObs (serve cfg req)
+  | some (fc, fr) => encFObs (serveFull fc fr)
 
 end C11
